@@ -39,7 +39,7 @@ func init() {
 		Assumptions: []string{"from >= 0 and 0 <= w <= 32 (stated domain)", "oracle reads bits one at a time, MSB of each byte first"},
 		Flavours:    releaseThenGo126,
 		Required: []string{"k=0/beyond-end", "k<w/clamped", "k=w", "from/aligned", "from/unaligned", "span/1", "span/2", "span/3", "span/4", "span/5",
-			"w=0", "w=32", "pathsof/dedup-hit", "pathsof/dedup-off-repeat", "pathsof/all-ones-first", "pathof/h=0", "pathof/h=32"},
+			"w=0", "w=32", "string>=50-bytes", "pathsof/dedup-hit", "pathsof/dedup-off-repeat", "pathsof/all-ones-first", "pathof/h=0", "pathof/h=32"},
 		Families: func(c *mon.Config) []mon.Family {
 			return []mon.Family{
 				{Name: "small-all", N: len(small), Run: func(w *mon.W, idx int) { c11All(w, small[idx]) }},
@@ -51,6 +51,7 @@ func init() {
 					}
 					c11All(w, k)
 				}},
+				{Name: "long-strings", N: c.Pick(60, 6000), Run: c11Long},
 				{Name: "pathsof-structured", N: 33 * 4, Run: c11PathsOfStructured},
 				{Name: "pathsof-zoo", N: c.Pick(15000, 3000000), Run: c11PathsOfZoo},
 			}
@@ -267,4 +268,50 @@ func c11PathsOfZoo(w *mon.W, idx int) {
 		c11CheckPathsOf(w, keys, from, h, dd)
 	}
 	w.Sample(func() interface{} { return mon.D{"keys": fmt.Sprintf("%q", keys), "from": from, "h": h} })
+}
+
+// c11Long: strings of 50..1200 bytes, start bits near 0, in the middle and around the end, all widths.
+func c11Long(w *mon.W, idx int) {
+	r := w.Rng
+	s := string(gen.ZooBytes(r, 50+r.Intn(1150)))
+	n := 8 * len(s)
+	var froms []int
+	for d := -40; d <= 9; d++ {
+		froms = append(froms, n+d)
+	}
+	for k := 0; k < 20; k++ {
+		froms = append(froms, r.Intn(n))
+	}
+	froms = append(froms, 0, 1, 7, 8, 255, 256, 257, 2047, 2048, n+1000)
+	var ev int64
+	for _, from := range froms {
+		if from < 0 {
+			continue
+		}
+		for wd := 0; wd <= 32; wd++ {
+			w.Op, w.A, w.B = "FromStr32(long)", int64(from), int64(wd)
+			gk, gv := bitmap.FromStr32(s, int32(from), int32(from+wd))
+			ek, evv := 0, uint64(0)
+			if from < n {
+				ek, evv = c11Bits(s, from, wd)
+			}
+			ev++
+			if int(gk) != ek || gv != evv {
+				w.Fail("FromStr32/long-string", mon.D{"len": len(s), "from": from, "to": from + wd, "got_k": gk, "got_value": fmt.Sprintf("%#x", gv), "expected_k": ek, "expected_value": fmt.Sprintf("%#x", evv)})
+				w.Eval(ev)
+				return
+			}
+			if gp, ep := bmtree.PathOf(s, int32(from), int32(wd)), c11PathWord(evv, ek, wd); gp != ep {
+				w.Fail("PathOf/long-string", mon.D{"len": len(s), "from": from, "h": wd, "got": fmt.Sprintf("%#x", gp), "expected": fmt.Sprintf("%#x", ep)})
+				w.Eval(ev)
+				return
+			}
+			if ek > 0 {
+				w.Distinct(gen.Hash64(gen.HashStr(s), uint64(from), uint64(wd)))
+			}
+		}
+	}
+	w.Eval(2 * ev)
+	w.Bucket("string>=50-bytes")
+	w.Sample(func() interface{} { return mon.D{"len": len(s), "start_bits": len(froms), "widths": "0..32"} })
 }
